@@ -42,7 +42,7 @@ structure Host where
   /-- the running `async_unregister_all_services` sequences -/
   closing : List AllTask
   done : Bool
-  deriving Repr, Inhabited
+  deriving DecidableEq, Repr, Inhabited
 
 def Host.init : Host := { reg := [], outq := [], delayq := [], tasks := [], closing := [], done := false }
 
@@ -255,6 +255,54 @@ def Host.run (h : Host) : List Block → Option (Host × List Pkt)
       match Host.run h' bs with
       | none => none
       | some (h'', out') => some (h'', out ++ out')
+
+/-! ### the public close calls (`AsyncZeroconf.async_close`, `Zeroconf.close()` from another thread) as programs of blocks
+
+`_close` (block `.close`) is the private primitive and is enabled in any state; what the property speaks about — "its instance is
+closed" — is the public call, which is a *sequence* of blocks of this machine.  Which sequence is read off the source by four
+call-order leaves. -/
+
+/-- a block of a shutdown call (`async_unregister_all_services`, its later steps, `_close`) -/
+def Block.isShutdown : Block → Bool
+  | .unregisterAll _ | .allStep _ | .close => true
+  | _ => false
+
+/-- a public close call at `now` on host `h`, as the blocks it consists of; `mid1`, `mid2` = whatever other blocks the loop runs
+while the call sleeps between its goodbyes.  `goodbye`: the call says goodbye at all (it calls `async_unregister_all_services`);
+`first`: it does so before `_close` sets `done`.  With nothing registered `generate_unregister_all_services` returns `None`
+and `_close` follows in the same task step. -/
+def closeCall (goodbye first : Bool) (h : Host) (now : Int) (mid1 mid2 : List Block) : List Block :=
+  let seq := if h.reg.isEmpty then [Block.unregisterAll now]
+             else [Block.unregisterAll now] ++ mid1 ++ [Block.allStep (now + unregisterTime)] ++ mid2 ++ [Block.allStep (now + unregisterTime + unregisterTime)]
+  if !goodbye then [Block.close]
+  else if first then seq ++ [Block.close]
+  else [Block.close] ++ seq
+
+/-- `AsyncZeroconf.async_close` (`asyncio.py:224-233`) -/
+def asyncClose (h : Host) (now : Int) (mid1 mid2 : List Block) : List Block :=
+  closeCall Gen.Register.async_close_unregisters_all Gen.Register.async_close_goodbyes_before_done h now mid1 mid2
+
+/-- `Zeroconf.close()` called from another thread (`_core.py:655-672`; on the instance's own loop the goodbyes are skipped by
+design with a warning — outside the quantifier) -/
+def syncClose (h : Host) (now : Int) (mid1 mid2 : List Block) : List Block :=
+  closeCall Gen.Register.sync_close_unregisters_all Gen.Register.sync_close_goodbyes_before_done h now mid1 mid2
+
+/-! ### a `ServiceInfo` object mutated under its running tasks (known finding D27)
+
+`_async_broadcast_service` holds the *object* and reads it again at each of its three steps.  The machine's tasks hold the fields
+(`Task.svc`) and `register`/`update` are not enabled for an object whose fields differ from those of one of its running tasks,
+so runs of the machine never mutate an object under a task.  The library itself does: `async_unregister_service(info)` followed
+by `async_register_service(info, allow_name_change=True)` renames the object in `async_check_service` before the goodbye task's
+first step.  `mutate` is what that does to the host; it is *not* a block of `Host.step` (runs of the machine never mutate), the
+trace replay and the extended machine `Host.xrun` (`Proofs/GoodbyeClose.lean`) use it to follow the real code.
+
+`snap` = the goodbye datagram is built when `async_unregister_service` is *called* (the D27 repair: the task re-sends that packet
+and no longer reads the object); an announcement task reads the object at every step in either tree. -/
+def Host.mutateWith (snap : Bool) (h : Host) (oid : Nat) (s' : Svc) : Host :=
+  { h with tasks := h.tasks.map (fun t => if t.oid == oid && (t.ttl.isNone || !snap) then { t with svc := s' } else t) }
+
+/-- … as the tree being checked does it: the leaf says whether `async_unregister_service` builds the goodbye packet itself -/
+def Host.mutate (h : Host) (oid : Nat) (s' : Svc) : Host := h.mutateWith Gen.Register.unregister_builds_goodbye_at_call oid s'
 
 end
 
